@@ -17,6 +17,7 @@ import (
 	"github.com/EliCDavis/polyform/formats/splat"
 	"github.com/EliCDavis/polyform/formats/spz"
 	"github.com/EliCDavis/polyform/modeling"
+	"github.com/EliCDavis/polyform/nodes"
 	"github.com/EliCDavis/vector/vector3"
 	"github.com/EliCDavis/vector/vector4"
 	"pgregory.net/rapid"
@@ -917,6 +918,17 @@ func runSpz(c SpzCase, o *vh.Obs) *vh.Failure {
 	}
 	if err != nil || cloud == nil {
 		return vh.Failf("spz-read-error", "spz.Read failed on a well-formed stream (version %d, %d points, degree %d): %v", c.Version, n, c.Deg, err)
+	}
+	// the graph's SPZ read node is the same decoder applied to a byte parameter
+	if n <= 4096 {
+		var nm modeling.Mesh
+		var nerr error
+		if kind, val := oracle.Try(func() { nm, nerr = (spz.ReadNodeData{Data: nodes.Value(stream).Out()}).Process() }); kind != "" {
+			return vh.Failf("spz-readnode-panic-"+kind, "spz.ReadNode panicked on a well-formed stream: %v", val)
+		}
+		if nerr != nil || oracle.Snapshot(nm) != oracle.Snapshot(cloud.Mesh) {
+			return vh.Failf("spz-readnode-differs", "spz.ReadNode on a well-formed stream (err %v) gives a different cloud than spz.Read", nerr)
+		}
 	}
 	h := cloud.Header
 	if h.Magic != 0x5053474e || int(h.Version) != c.Version || int(h.NumPoints) != n || int(h.ShDegree) != c.Deg || int(h.FractionalBits) != c.FB || int(h.Flags) != c.Flags || h.Reserved != 0 {
